@@ -286,6 +286,15 @@ def parent_flags_fn(kind, strict):
                 "mismatch_seq2": (Parent(id="chrA", sequence=sq("ACGT" * 8)), Parent(id="chrA", sequence=sq("TTGA" * 8))),
                 "mismatch_type": (Parent(id="chrA", sequence_type=SequenceType.CHROMOSOME), Parent(id="chrA", sequence_type="plasmid")),
                 "mismatch_grandparent": (Parent(id="chrA", parent=Parent(id="asm1")), Parent(id="chrA", parent=Parent(id="asm2"))),
+                # the same names at every level, but the system sits at a DIFFERENT PLACE (or strand) on its own parent: two different coordinate systems
+                "mismatch_placement": (Parent(id="win", sequence_type="region", parent=Parent(id="chrA", sequence_type=SequenceType.CHROMOSOME,
+                                                                                                location=SingleInterval(100, 200, PLUS))),
+                                       Parent(id="win", sequence_type="region", parent=Parent(id="chrA", sequence_type=SequenceType.CHROMOSOME,
+                                                                                                location=SingleInterval(500, 600, PLUS)))),
+                "mismatch_placement_strand": (Parent(id="win", sequence_type="region", parent=Parent(id="chrA", sequence_type=SequenceType.CHROMOSOME,
+                                                                                                       location=SingleInterval(100, 200, PLUS))),
+                                              Parent(id="win", sequence_type="region", parent=Parent(id="chrA", sequence_type=SequenceType.CHROMOSOME,
+                                                                                                       location=SingleInterval(100, 200, MINUS)))),
                 "same_seq": (Parent(id="chrA", sequence=sq("ACGT" * 8)), Parent(id="chrA", sequence=sq("ACGT" * 8))),
             }[kind]
         else:
@@ -685,9 +694,9 @@ def obligations(tier):
             out.append(Obl("parents_%s_strict%d" % (kind, strict), parent_flags_fn(kind, strict), P, _pre2(1, 1), budget=120, cost=4,
                            desc="parent matching: mismatched parents => no overlap/empty intersection/unchanged difference, or MismatchedParentException when strict",
                            bounds="1x1 blocks, parents by id", examples=[_ex2(1, 1, p=5)]))
-    for kind in ("mismatch_seq", "mismatch_seq_rev", "mismatch_seq2", "mismatch_type", "mismatch_grandparent", "same_seq"):
+    for kind in ("mismatch_seq", "mismatch_seq_rev", "mismatch_seq2", "mismatch_type", "mismatch_grandparent", "mismatch_placement", "mismatch_placement_strand", "same_seq"):
         for strict in (False, True):
-            if quick and strict and kind not in ("mismatch_seq", "same_seq"):
+            if quick and strict and kind not in ("mismatch_seq", "same_seq", "mismatch_placement"):
                 continue
             out.append(Obl("parents_%s_strict%d" % (kind, strict), parent_flags_fn(kind, strict), P,
                            (lambda base: (lambda **kw: base(**kw) and kw["as0"] + kw["al0"] <= 32 and kw["bs0"] + kw["bl0"] <= 32))(_pre2(1, 1)), budget=120, cost=4,
